@@ -328,6 +328,11 @@ def popitem (s : OMD K V) : OMD K V × Out K V :=
       | (s', .val v) => (s', .pair p.1 v)
       | (s', o) => (s', o)
 
+/-- `__repr__`: `'%s([%s])' % (cn, ', '.join([repr((k, v)) for k, v in self.iteritems(multi=True)]))`, with the
+    class name and the `repr` of keys and values as parameters -/
+def reprText (cn : String) (rk : K → String) (rv : V → String) (s : OMD K V) : String :=
+  cn ++ "([" ++ ", ".intercalate (s.itemsM.map fun p => "(" ++ rk p.1 ++ ", " ++ rv p.2 ++ ")") ++ "])"
+
 /-! derived containers -/
 
 /-- `inverted()` -/
